@@ -220,11 +220,12 @@ func rpOf(p purposeKind) purpose.Purpose {
 
 // runEntry calls one of the three entry points.
 func runEntry(entry string, p purposeKind, tr *netsim.Transport, chain []*x509.Certificate) (res []*result.CertRevocationResult, err error, pan any) {
-	defer func() {
-		if r := recover(); r != nil {
-			pan = r
-		}
-	}()
+	return newEntry(entry, p, tr)(chain)
+}
+
+// newEntry builds the entry point once (one validator object) and returns a function that checks a chain with it.
+func newEntry(entry string, p purposeKind, tr *netsim.Transport) func(chain []*x509.Certificate) ([]*result.CertRevocationResult, error, any) {
+	var call func(chain []*x509.Certificate) ([]*result.CertRevocationResult, error)
 	switch entry {
 	case "validatecontext":
 		f, e := corecrl.NewHTTPFetcher(tr.Client())
@@ -235,17 +236,50 @@ func runEntry(entry string, p purposeKind, tr *netsim.Transport, chain []*x509.C
 		if e != nil {
 			panic(mc.HarnessError{Msg: e.Error()})
 		}
-		res, err = v.ValidateContext(context.Background(), revocation.ValidateContextOptions{CertChain: chain})
+		call = func(chain []*x509.Certificate) ([]*result.CertRevocationResult, error) {
+			return v.ValidateContext(context.Background(), revocation.ValidateContextOptions{CertChain: chain})
+		}
 	case "validate":
 		v, e := revocation.New(tr.Client())
 		if e != nil {
 			panic(mc.HarnessError{Msg: e.Error()})
 		}
-		res, err = v.Validate(chain, pki.Now)
+		call = func(chain []*x509.Certificate) ([]*result.CertRevocationResult, error) { return v.Validate(chain, pki.Now) }
 	case "checkstatus":
-		res, err = revocsp.CheckStatus(revocsp.Options{CertChain: chain, CertChainPurpose: rpOf(p), HTTPClient: tr.Client()})
+		call = func(chain []*x509.Certificate) ([]*result.CertRevocationResult, error) {
+			return revocsp.CheckStatus(revocsp.Options{CertChain: chain, CertChainPurpose: rpOf(p), HTTPClient: tr.Client()})
+		}
 	}
-	return
+	return func(chain []*x509.Certificate) (res []*result.CertRevocationResult, err error, pan any) {
+		defer func() {
+			if r := recover(); r != nil {
+				pan = r
+			}
+		}()
+		res, err = call(chain)
+		return
+	}
+}
+
+// renderResults is a complete textual form of a result list (for "unchanged" / "same again" comparisons).
+func renderResults(res []*result.CertRevocationResult) string {
+	var b strings.Builder
+	for i, r := range res {
+		if r == nil {
+			fmt.Fprintf(&b, "[%d nil]", i)
+			continue
+		}
+		fmt.Fprintf(&b, "[%d %s %s:", i, r.Result, r.RevocationMethod)
+		for _, sr := range r.ServerResults {
+			if sr == nil {
+				b.WriteString(" nil")
+				continue
+			}
+			fmt.Fprintf(&b, " (%s %s %s err=%v)", sr.Server, sr.Result, sr.RevocationMethod, sr.Error != nil)
+		}
+		b.WriteString("]")
+	}
+	return b.String()
 }
 
 func (s *c12Scenario) body(c *mc.Ctx) {
@@ -275,10 +309,25 @@ func (s *c12Scenario) body(c *mc.Ctx) {
 		return w.serveCRL(src, crlByName(crlClassNames[crlCls[src.cert][src.idx]]))
 	}
 	chain := pki.X509s(w.certs)
-	res, err, pan := runEntry(s.entry, s.purpose, tr, chain)
+	check := newEntry(s.entry, s.purpose, tr)
+	res, err, pan := check(chain)
 	if pan != nil || err != nil {
 		c.Fail("C12 valid chain not processed", "entry %s: panic=%v err=%v", s.entry, pan, err)
 		return
+	}
+	// the same chain once more through the same object, against the same servers: the first list is left as it was returned, and the
+	// second says the same (nothing here has a cache; a result list belongs to its call)
+	first := renderResults(res)
+	res2, err2, pan2 := check(chain)
+	if pan2 != nil || err2 != nil {
+		c.Fail("C12 "+s.entry+" second check of the same chain fails", "panic=%v err=%v", pan2, err2)
+	} else {
+		if now := renderResults(res); now != first {
+			c.Fail("C12 "+s.entry+" result list changed after it was returned", "returned %s, after a second call it reads %s", first, now)
+		}
+		if second := renderResults(res2); second != first {
+			c.Fail("C12 "+s.entry+" second check of the same chain differs", "first %s, second %s", first, second)
+		}
 	}
 	en := "validate"
 	if s.entry == "checkstatus" {
